@@ -3,6 +3,7 @@ package props
 import (
 	"fmt"
 	"sort"
+	"strconv"
 	"strings"
 	"sync"
 
@@ -31,6 +32,11 @@ type c19Pair struct {
 	short string
 	typ   string
 }
+
+// c19DocumentedPairs: pairs of options whose help text itself says that they only act when BOTH are given
+// (gotree brlen setrand: "If --mean-min and --mean-max are given ... Otherwise, 'mean' is set to --mean value"):
+// moving one of them while toggling the other switches the documented mode, which is not a default that is ignored.
+var c19DocumentedPairs = map[string]bool{"min-mean+max-mean": true}
 
 func walkCmds() {
 	cmdOnce.Do(func() {
@@ -122,6 +128,7 @@ func init() {
 		Assumptions: []string{
 			"the flag set is finite and walked completely (exhaustive for part a); the differential covers the commands that run offline (download/upload/interactive shell/png are covered by the walk only)",
 			"--seed is always given (its documented default is the clock)",
+			"odd input families move ANOTHER numeric option of the command away from its default in both runs; the pair --min-mean / --max-mean of brlen setrand is left out because the help text documents that the interval only applies when both are given",
 		},
 		MinNontrivialFrac: 0.25,
 		Run:               runC19,
@@ -190,7 +197,7 @@ func runC19(c *Ctx, idx int, o *Obs) {
 	o.SetFP("diff", p.tmpl.Name, p.flag, fmt.Sprint(fam))
 	c.Announce(what)
 	seed := []string{"--seed", "12345"}
-	a := runTmpl(c, p.tmpl, in, seed, "a")
+	var a runOut
 	// the default is passed in one of the spellings the help describes
 	given := []string{"--" + p.flag + "=" + p.def}
 	form := "--name=value"
@@ -203,7 +210,50 @@ func runC19(c *Ctx, idx int, o *Obs) {
 		}
 	}
 	o.AddSet("default_spellings", form)
-	b := runTmpl(c, p.tmpl, in, append(given, seed...), "a")
+	// odd input families: ANOTHER numeric option of the command is moved away from its default in both runs (twice
+	// the default, or 1), so that a default that silently follows another option shows
+	var other []string
+	if fam%2 == 1 {
+		var words []string
+		for _, a := range p.tmpl.Args {
+			if strings.HasPrefix(a, "-") || strings.HasPrefix(a, "{") {
+				break
+			}
+			words = append(words, a)
+		}
+		if cc, _, err := gcmd.RootCmd.Find(words); err == nil && cc != nil {
+			var cands []*pflag.Flag
+			for _, f := range flagsOf(cc) {
+				if f.Name == p.flag || f.Name == "seed" || f.Name == "threads" || (f.Value.Type() != "int" && f.Value.Type() != "float64") {
+					continue
+				}
+				if c19DocumentedPairs[p.flag+"+"+f.Name] || c19DocumentedPairs[f.Name+"+"+p.flag] {
+					continue
+				}
+				present := false
+				for _, a := range p.tmpl.Args {
+					if a == "--"+f.Name || strings.HasPrefix(a, "--"+f.Name+"=") || (f.Shorthand != "" && a == "-"+f.Shorthand) {
+						present = true
+					}
+				}
+				if !present {
+					cands = append(cands, f)
+				}
+			}
+			if len(cands) > 0 {
+				f := cands[(k/len(c19Pairs)+len(p.flag))%len(cands)]
+				v := "1"
+				if x, err := strconv.ParseFloat(f.DefValue, 64); err == nil && x > 0 {
+					v = strconv.FormatFloat(2*x, 'g', -1, 64)
+				}
+				other = []string{"--" + f.Name + "=" + v}
+				what += " with " + other[0]
+				o.Ev("differential_with_another_option_moved", 1)
+			}
+		}
+	}
+	a = runTmpl(c, p.tmpl, in, append(append([]string{}, other...), seed...), "a")
+	b := runTmpl(c, p.tmpl, in, append(append(append([]string{}, other...), given...), seed...), "a")
 	o.Ev("differential_runs", 2)
 	if a.res.TimedOut || b.res.TimedOut {
 		o.Inconclusive = what + ": wall-clock watchdog"
@@ -218,7 +268,7 @@ func runC19(c *Ctx, idx int, o *Obs) {
 	if d == "" {
 		return
 	}
-	a2 := runTmpl(c, p.tmpl, in, seed, "a")
+	a2 := runTmpl(c, p.tmpl, in, append(append([]string{}, other...), seed...), "a")
 	if d2 := diffRuns(a, a2); d2 != "" {
 		o.Inconclusive = what + ": two identical runs differ (" + d2 + "): non-deterministic command, see C18"
 		return
